@@ -44,6 +44,9 @@ type Case struct {
 	// SameRoot (same source and destination element type only): both windows are cut from
 	// one parent buffer, the destination window Src.Kr frames behind the source's root part.
 	SameRoot bool `json:"sameRoot,omitempty"`
+	// Hist (history mode, see history.go): instantiation keys "S/D" run in this order over
+	// their fixed probe sets in a fresh process; every other field is ignored.
+	Hist []string `json:"hist,omitempty"`
 }
 
 func build(name string, C int, w Win) (root, win kit.AnyBuf, model []kit.Val, off, n int) {
@@ -52,6 +55,9 @@ func build(name string, C int, w Win) (root, win kit.AnyBuf, model []kit.Val, of
 }
 
 func Check(c *Case) (res kit.Result) {
+	if len(c.Hist) > 0 {
+		return checkHistory(c)
+	}
 	e := convtab.Lookup(c.S, c.D)
 	if e == nil || c.C < 1 || !c.Src.valid(c.C) || !c.Dst.valid(c.C) || len(c.Vals) == 0 {
 		return
@@ -250,6 +256,9 @@ func FP(c *Case) uint64 {
 	h.Str(c.S)
 	h.Str(c.D)
 	h.Int(c.DstFill)
+	for _, k := range c.Hist {
+		h.Str(k)
+	}
 	if c.SameRoot {
 		h.Int(1)
 	}
@@ -303,7 +312,35 @@ func GenVal(t *rapid.T, ti kit.TypeInfo, allowNaN bool) kit.Val {
 	return convtab.AmpToCode(ti, kit.GenAmp(t, ti.Bits, bAmps[ti.Bits]))
 }
 
+// genHistory draws a short history: instantiations related to a base one (same
+// function and source type, same function and destination type, same source
+// width) or unrelated, in drawn order; repeats are allowed.
+func genHistory(t *rapid.T) *Case {
+	base := convtab.Entries[rapid.IntRange(0, len(convtab.Entries)-1).Draw(t, "histBase")]
+	c := &Case{S: base.S.Name, D: base.D.Name}
+	n := rapid.IntRange(2, 5).Draw(t, "histLen")
+	for i := 0; i < n; i++ {
+		rel := rapid.IntRange(0, 4).Draw(t, "histRel")
+		var pool []*convtab.Entry
+		for _, e := range convtab.Entries {
+			switch {
+			case rel == 0 && e.Fn == base.Fn && e.S.Bits == base.S.Bits,
+				rel == 1 && e.Fn == base.Fn && e.D.Bits == base.D.Bits,
+				rel == 2 && e.S.Kind == base.S.Kind && e.S.Bits == base.S.Bits,
+				rel == 3,
+				rel == 4 && e == base:
+				pool = append(pool, e)
+			}
+		}
+		c.Hist = append(c.Hist, pool[rapid.IntRange(0, len(pool)-1).Draw(t, "histStep")].Key())
+	}
+	return c
+}
+
 func Gen(t *rapid.T) *Case {
+	if kit.Chance(t, "history", 1, 1500) {
+		return genHistory(t)
+	}
 	e := convtab.Entries[rapid.IntRange(0, len(convtab.Entries)-1).Draw(t, "inst")]
 	c := &Case{S: e.S.Name, D: e.D.Name, C: kit.GenChannels(t)}
 	c.Src = genWin(t, "s", c.C)
